@@ -824,6 +824,26 @@ def rule_plumbing(check):
     th = [n for n in hir.calls_in(rj.body, name="try_with_handler")]
     ok = len(th) == 1 and _in_value_position(rj, th[0])
     inner = th and [x for x in hir.walk(th[0]) if hir.is_call(x) and hir.callee_name(x) in ("parse_js", "transform_js")]
+    if not th:
+        # rewrite_js delegates to a helper that runs a continuation inside try_with_handler: what runs
+        # inside is what the helper does there plus the closure rewrite_js hands to it
+        for c in hir.calls_in(rj.body):
+            h = prog.resolve_local(c)
+            if h is None or h.body is None or not _in_value_position(rj, c):
+                continue
+            th2 = [n for n in hir.calls_in(h.body, name="try_with_handler")]
+            if len(th2) != 1 or not _in_value_position(h, th2[0]):
+                continue
+            inner = [x for x in hir.walk(th2[0]) if hir.is_call(x) and hir.callee_name(x) in ("parse_js", "transform_js")]
+            fn_params = {b["local"]: i for i, p_ in enumerate(h.rec.get("params", [])) for b in hir.pat_bindings(p_["pat"])}
+            for x in hir.walk(th2[0]):
+                if x.get("k") == "Call" and hir.local_of(x["f"]) and hir.local_of(x["f"])[0] in fn_params:
+                    i = fn_params[hir.local_of(x["f"])[0]]
+                    ca = hir.call_args(c)
+                    if i < len(ca) and hir.peel(ca[i]).get("k") == "Closure":
+                        inner += [y for y in hir.walk(hir.peel(ca[i])["body"]) if hir.is_call(y) and hir.callee_name(y) in ("parse_js", "transform_js")]
+            ok = True
+            th = th2
     check.expect(ok and inner and len(inner) == 2, R, R + "/try_with_handler", hir.loc(rj.rec), "parse and transform run inside try_with_handler", "rewrite_js does not run parse/transform inside try_with_handler")
     rw = prog.fn("lib_wasm::Rewriter::rewrite")
     me = [n for n in hir.calls_in(rw.body, name="map_err")]
